@@ -57,7 +57,16 @@ int main(int argc, char **argv) {
 			if (hookDumps && v != "pre") passes.open(base + ".passes");
 			try {
 				DesignScope design;
-				Clock clock({ .absoluteFrequency = 100'000'000 });
+				// optional `clockcfg rst=sync|async|none act=high|low` statement selects the reset behaviour of the one clock
+				ClockConfig ccfg; ccfg.absoluteFrequency = hlim::ClockRational(100'000'000, 1);
+				for (auto &st : prog.stmts) if (st[0] == "clockcfg") for (size_t i = 1; i < st.size(); i++) {
+					if (st[i] == "rst=async") ccfg.resetType = ClockConfig::ResetType::ASYNCHRONOUS;
+					else if (st[i] == "rst=none") ccfg.resetType = ClockConfig::ResetType::NONE;
+					else if (st[i] == "rst=sync") ccfg.resetType = ClockConfig::ResetType::SYNCHRONOUS;
+					else if (st[i] == "act=low") ccfg.resetActive = ClockConfig::ResetActive::LOW;
+					else if (st[i] == "act=high") ccfg.resetActive = ClockConfig::ResetActive::HIGH;
+				}
+				Clock clock(ccfg);
 				ClockScope cs(clock);
 				nd::Interp in;
 				in.run(prog);
